@@ -409,6 +409,9 @@ func (vc *FuncVC) run() {
 	entryEnv := &Env{vc: vc, st: st, old: st, vars: map[string]SVal{}, lookup: vc.resolver(defs, fn.Blocks[0], 0, st, nil, nil)}
 	// global invariants (assumed at entry; proved of init separately)
 	for _, gi := range vc.S.GlobalInv {
+		if vc.isInit {
+			break
+		}
 		e := *entryEnv
 		e.ctx = gi.Ctx
 		e.lookup = nil
@@ -433,7 +436,13 @@ func (vc *FuncVC) run() {
 		e := *entryEnv
 		fr := &frame{name: "func", allocPre: vc.cur(st, "alloc"), mods: vc.evalModifies(vc.con.Modifies, &e)}
 		vc.frames = []*frame{fr}
-		vc.withFrame = true
+		vc.withFrame = !vc.isInit
+	}
+	if vc.isInit {
+		// the initialiser runs once: its guard is false on entry
+		if g, ok := fn.Pkg.Members["init$guard"].(*ssa.Global); ok {
+			vc.assume(True, Not(vc.load(st, vc.val(g), SBool)))
+		}
 	}
 	order := rpo(fn)
 	for _, b := range order {
